@@ -1273,3 +1273,28 @@ func (fx *Facts) nilTestReturned(e ssa.Value) bool {
 	}
 	return false
 }
+
+// liftToCaller: the call c sits in an unexported module helper (not a closure, never used as a value) that is called
+// from exactly one place; follow such single call sites up to a call inside fn (three levels). nil if c cannot be
+// attributed to a single call in fn this way; c itself if it already is in fn.
+func (cx *Ctx) liftToCaller(c ssa.CallInstruction, fn *ssa.Function) ssa.CallInstruction {
+	fx := cx.Fx
+	if fx.sitesOf == nil {
+		fx.buildCallSites()
+	}
+	for d := 0; d < 4; d++ {
+		h := c.Parent()
+		if h == fn {
+			return c
+		}
+		if h == nil || h.Parent() != nil || fx.addrTaken[h] || token.IsExported(h.Name()) {
+			return nil
+		}
+		sites := fx.sitesOf[h]
+		if len(sites) != 1 {
+			return nil
+		}
+		c = sites[0]
+	}
+	return nil
+}
